@@ -24,3 +24,5 @@ MUSTFAIL_PER_FN = {'quick': 1, 'thorough': 6}
 TIMEOUT_MS = {'quick': 60000, 'thorough': 240000}
 
 FUNCTIONS = FUNCTIONS + [q for q in KIDS if q not in FUNCTIONS]
+
+VALIDATION = [validate_bs4]
